@@ -11,4 +11,13 @@ var verifEntries = map[string]func(int){
 	"Verif_C16_Linear": Verif_C16_Linear,
 	"Verif_C17_Linear": Verif_C17_Linear,
 	"Verif_C18_Linear": Verif_C18_Linear,
+
+	"Verif_C01_TLSF":        Verif_C01_TLSF,
+	"Verif_C03_TLSF":        Verif_C03_TLSF,
+	"Verif_C06_TLSF":        Verif_C06_TLSF,
+	"Verif_C13_TLSF":        Verif_C13_TLSF,
+	"Verif_C17_TLSF":        Verif_C17_TLSF,
+	"Verif_C18_TLSF":        Verif_C18_TLSF,
+	"Verif_C05_TLSF_Search": Verif_C05_TLSF_Search,
+	"Verif_C05_TLSF_Lemmas": Verif_C05_TLSF_Lemmas,
 }
